@@ -50,4 +50,20 @@ def handleHubSubs (hdr : List String) (body : List (List String)) : List String 
       | none => [])
   | _ => ["model bad-case"]
 
+/-- suite `serverconc` (C20): PushBlock concurrent with subscribe. The property allows one outcome per subscriber:
+    a gap-free run of the pushed sequence ending with the last block pushed (no overflow: fewer pushes than the
+    channel holds). -/
+def handleServerConc (_hdr : List String) (body : List (List String)) : List String :=
+  let ops := body.filterMap (fun ws => match ws with | ["op", "sub", j] => some j | _ => none)
+  let impl := body.filterMap (fun ws => match ws with | "impl" :: rest => some (unwords rest) | _ => none)
+  let model := ops.map (fun j => s!"model sub {j} ok")
+  let bad := (ops.zip impl).find? (fun (j, i) => i != s!"sub {j} ok")
+  model ++ (match bad with
+    | some (_, i) =>
+      let why := if (i.splitOn " gap ").length > 1 then "block-pushed-during-subscribe-is-in-neither-burst-nor-fan-out"
+        else if (i.splitOn "closed").length > 1 then "subscription-closed-without-overflow"
+        else "subscriber-did-not-receive-the-last-pushed-block"
+      [s!"monitor C20 FAIL {why} ({i})"]
+    | none => [])
+
 end BstreamVerif.Drv.ConcDrv
